@@ -108,6 +108,14 @@ func SV_C19_tally() {
 			sv.Unreachable("earlier freeze record")
 		}
 	}
+	// ... and, when the block-begin check froze it in this very block, the election of this
+	// block (which runs before the tally) has just purged it
+	if already && sv.Choice("purgedInThisBlock", 2) == 1 {
+		if err := e.vs.SetLastPurgeHeight(e.cands[0].addr, 3); err != nil {
+			sv.Unreachable("purge height")
+		}
+		sv.Cover(true, "purged-in-the-verdict-block")
+	}
 	es.SetAllegationTracker(at)
 	e.st.Commit()
 	e.st.Commit() // version 2 = h-1
